@@ -25,7 +25,7 @@ ASSUMPTIONS = [
     "kept information is compared field-wise through harness/wire.py's decoding of the input and of the re-encoded bytes",
     "inputs rejected by the decoder are out of scope here (C03)",
 ]
-BUDGET = {"quick": {"examples": 16000, "shrink": 250}, "thorough": {"examples": 800000, "shrink": 1500, "extra_shards": 16}}
+BUDGET = {"quick": {"examples": 16000, "shrink": 250}, "thorough": {"examples": 400000, "shrink": 1500, "extra_shards": 16}}
 FUZZ_RUNS = {"quick": 0, "thorough": 400000}
 
 
